@@ -288,7 +288,7 @@ class Verdict:
 
     def find_known(self, site, polarity=None):
         for k in self.known:
-            if k.get("site") == site and (polarity is None or k.get("polarity") in (None, "any", polarity)):
+            if (k.get("site") == site or site in k.get("sites", [])) and (polarity is None or k.get("polarity") in (None, "any", polarity)):
                 return k
         return None
 
